@@ -28,7 +28,7 @@ check("C06", "exploration",
       "instance of the ten invalidating edits at every selection set (any depth, inside named and inline fragments, on "
       "object / interface / union parents; plus document-level edits and schema variants without a mutation / "
       "subscription root, incl. one whose `schema {}` block omits them while plain types carry the conventional names; a sample of every edit "
-      "kind again under three other option sets; fragment-only sub-selections on leaves; invalid selections that a literal "
+      "kind again under three other option sets and against the introspection-JSON form of the schema; fragment-only sub-selections on leaves; invalid selections that a literal "
       "@skip(if: true) / @include(if: false) would hide). The real generator must never return code for a document the reference validator rejects.",
       "Trusted: the reference validator (the ten rules of the property, from the GraphQL spec text). Only edits it "
       "confirms as invalidating are counted.",
